@@ -88,7 +88,21 @@ type SpecSet struct {
 	Defines   map[string]*Define
 	Aggs      []*AggSpec
 	RowInvs   []*RowInv
+	Lemmas    []*Lemma
 	Files     []string
+}
+
+// Lemma is a pure specification-level fact (no code): universally quantified over its
+// declared variables and discharged by the solvers on every run.
+type Lemma struct {
+	Name    string
+	Vars    []string
+	Sorts   []smt.Sort
+	Expr    *Spec
+	PkgPath string
+	File    string
+	Line    int
+	Tags    []string
 }
 
 // RowInv is an invariant of every row of a table: assumed of rows read from the unknown
@@ -321,6 +335,31 @@ func (ss *SpecSet) directive(cur **Contract, pkgPath, file string, ln int, body 
 			return fail(err)
 		}
 		ss.RowInvs = append(ss.RowInvs, &RowInv{Name: f[0], Table: f[2], RowType: f[4], Expr: sp, PkgPath: pkgPath, File: file, Line: ln})
+	case "lemma":
+		// lemma <name> (x Int, y Str): <expr>
+		i := strings.Index(rest, "(")
+		j := strings.Index(rest, "):")
+		if i < 0 || j < i {
+			return fail(fmt.Errorf("lemma <name> (x Int, ...): <expr>"))
+		}
+		l := &Lemma{Name: strings.TrimSpace(rest[:i]), PkgPath: pkgPath, File: file, Line: ln}
+		for _, v := range strings.Split(rest[i+1:j], ",") {
+			f := strings.Fields(v)
+			if len(f) != 2 {
+				return fail(fmt.Errorf("lemma variable %q", v))
+			}
+			l.Vars = append(l.Vars, f[0])
+			l.Sorts = append(l.Sorts, smt.Sort(f[1]))
+		}
+		sp, err := parseSpec(strings.TrimSpace(rest[j+2:]))
+		if err != nil {
+			return fail(err)
+		}
+		l.Expr = sp
+		if k := strings.Index(l.Name, "/"); k > 0 {
+			l.Tags = strings.Split(l.Name[:k], ",")
+		}
+		ss.Lemmas = append(ss.Lemmas, l)
 	case "trusted":
 		if *cur != nil {
 			(*cur).Trusted = true
@@ -851,6 +890,25 @@ func (ev *evalEnv) call(x *ast.CallExpr) tval {
 			return tval{bech32(ex.term(ev.eval(x.Args[0]).V)), types.Typ[types.String]}
 		case "unbech32":
 			return tval{unbech32(ex.term(ev.eval(x.Args[0]).V)), nil}
+		case "fst", "snd":
+			v := ev.eval(x.Args[0])
+			tv, ok := v.V.(TupleV)
+			if !ok {
+				ev.fail(x, "not a tuple")
+			}
+			i := 0
+			if id.Name == "snd" {
+				i = 1
+			}
+			var t types.Type
+			if tt, ok := v.T.(*types.Tuple); ok && i < tt.Len() {
+				t = tt.At(i).Type()
+			}
+			return tval{tv[i], t}
+		case "currentHeight":
+			return tval{smt.Var("ctx!height", smt.Int), intT}
+		case "currentTime":
+			return tval{smt.Var("ctx!blocktime", smt.Int), intT}
 		case "blockTime":
 			return tval{ex.ctxTime(ev.ctxArg(x, 0)), intT}
 		case "blockHeight":
